@@ -46,9 +46,9 @@ def import_impl():
 
 def seed():
     try:
-        return int(os.environ.get("VERIF_SEED", "20260930"))
+        return int(os.environ.get("VERIF_SEED", "1"))
     except ValueError:
-        return 20260930
+        return 1
 
 
 def rng(tag=""):
